@@ -391,6 +391,8 @@ def reuse_workload(res, ctx, rng):
 
 def run(ctx):
     res = core.Result()
+    import random
+    H.set_clock(random.Random(ctx.seed * 7919 + ctx.shard))      # coarse time base: records may share a tick
     rng = ctx.rng
     arities = discover_path_decoders(res)
     if len(arities) < 10:
